@@ -55,16 +55,24 @@ def gen_cases(rng, tier, rnd):
                 if finite:
                     L = rng.choice([0, 1, 2, 3, 5, 8, 20, 100, 1000, max(0, m - 1), m, m + 1, m + 5])
                 else:
-                    # unbounded closures: the enumeration visits up to (2*limit+1)^n configurations; keep that below ~700
+                    # unbounded closures: the enumeration visits up to (2*limit+1)^n configurations; keep that below ~150 (625 configurations cost 6.7 M ticks, measured)
                     nn = min(nn, 4)
-                    L = rng.choice({0: [0, 1, 2, 3, 5, 8, 12, 20], 1: [0, 1, 2, 3, 5, 8, 12, 20], 2: [0, 1, 2, 3, 5, 8, 12],
-                                    3: [0, 1, 2, 3], 4: [0, 1, 2]}[nn])
+                    L = rng.choice({0: [0, 1, 2, 3, 5, 8, 12, 20], 1: [0, 1, 2, 3, 5, 8, 12, 20], 2: [0, 1, 2, 3, 5],
+                                    3: [0, 1, 2], 4: [0, 1]}[nn])
                 steps.append({'n': nn, 'limit': L})
             c['steps'] = steps
+        elif kind == 'tm' and rng.random() < 0.08:
+            a = gentm.slow_tm(rng)              # verdicts decided after hundreds of steps, within the default budget
+            c['spec'], c['rank'] = gentm.rename(a, rng)
+            c['steps'] = [{'n': rng.choice([0, 1, 1, 2]), 'max_steps': rng.choice([1000, 1000, 300, 600])} for _ in range(2)]
         elif kind == 'tm':
             a = gentm.abstract_tm(rng)
             c['spec'], c['rank'] = gentm.rename(a, rng)
             c['steps'] = [{'n': rng.choice([0, 0, 1, 1, 2, 3, 4]), 'max_steps': rng.choice([0, 1, 2, 5, 20, 1000])} for _ in range(3)]
+        elif kind == 'cfg' and rng.random() < 0.12:
+            a = gencfg.cnf_shaped_cfg(rng)      # looks like CNF rule by rule, is not CNF
+            c['spec'], c['rank'] = gencfg.rename(a, rng)
+            c['steps'] = [{'n': rng.choice([0, 1, 2, 3, 4])} for _ in range(3)]
         elif kind == 'cfg' and rng.random() < 0.08:
             a = gencfg.wide_cfg(rng)           # the Chomsky normal form needs more than 26 variables
             c['spec'], c['rank'] = gencfg.rename(a, rng)
